@@ -164,6 +164,7 @@ func NewExec(ld *Loaded, sol *Solver) *Exec {
 	ex.ipdomCache = map[*ssa.Function]map[*ssa.BasicBlock]*ssa.BasicBlock{}
 	ex.noIfConv = os.Getenv("GOSYM_NOIFCONV") != ""
 	ex.registerIntrinsics()
+	ex.registerBLAS()
 	return ex
 }
 
